@@ -3,6 +3,7 @@ module verif/harness
 go 1.23.0
 
 require (
+	github.com/aws/aws-sdk-go-v2/service/s3 v1.79.2
 	github.com/gofiber/fiber/v2 v2.52.6
 	github.com/pkg/xattr v0.4.10
 	github.com/versity/versitygw v0.0.0
@@ -26,7 +27,6 @@ require (
 	github.com/aws/aws-sdk-go-v2/service/internal/checksum v1.7.0 // indirect
 	github.com/aws/aws-sdk-go-v2/service/internal/presigned-url v1.12.15 // indirect
 	github.com/aws/aws-sdk-go-v2/service/internal/s3shared v1.18.15 // indirect
-	github.com/aws/aws-sdk-go-v2/service/s3 v1.79.2 // indirect
 	github.com/aws/aws-sdk-go-v2/service/sso v1.25.3 // indirect
 	github.com/aws/aws-sdk-go-v2/service/ssooidc v1.30.1 // indirect
 	github.com/aws/aws-sdk-go-v2/service/sts v1.33.19 // indirect
